@@ -128,9 +128,20 @@ def run(tier='quick'):
             # Crate.path of the crate itself and of its subtree
             upd = by.get(('update', 'crate'), [])
             reach = cg.reachable([f])
-            sub = [k for k in reach if reach[k][0].name == 'update_path']
+            # a function reached from here (not this one) that UPDATEs Crate.path and walks children():
+            # the subtree rewrite, whatever it is called
+            sub = []
+            for k, (g, _, _) in reach.items():
+                if g is f or g.body is None:
+                    continue
+                writes_path = any(s_.stored_in is not None and s_.stored_in.kind == 'update' and
+                                  (s_.stored_in.table or '').lower() == 'crate' and
+                                  any(c.lower() == 'path' for c, _ in s_.stored_in.sets) for s_ in eff.sites(g))
+                walks = any((e.name or '').endswith('::children') for e in cg.edges(g))
+                if writes_path and walks:
+                    sub.append(k)
             own = [sm for sm in upd if 'path' in cols(sm) and wheres(sm).get('id') == 'id()']
-            inst = '%s: Crate.path rewritten for the crate (UPDATE .. WHERE id = id()) and for its subtree (update_path)' % _short(qn)
+            inst = '%s: Crate.path rewritten for the crate (UPDATE .. WHERE id = id()) and for its subtree (a reached function that updates Crate.path along children())' % _short(qn)
             if (own or op == 'move' and sub) and sub:
                 chk.ok(W1, inst, (own[0].loc if own else locstr(f.node)))
             else:
@@ -138,7 +149,7 @@ def run(tier='quick'):
                               '%s: %s%s - Crate.path keeps spelling the old position while CrateParentList / '
                               'CrateHierarchy describe the new one' % (
                                   inst, '' if own or op == 'move' else 'no UPDATE of the crate\'s own path; ',
-                                  '' if sub else 'update_path is not reached, so the paths of the crate and its '
+                                  '' if sub else 'no function that rewrites Crate.path along children() is reached, so the paths of the crate and its '
                                   'sub-crates are not rewritten'))
     # ---- W2 ------------------------------------------------------------------------------
     order = rowrules.enum_order(prog)
